@@ -436,6 +436,45 @@ def handleCrash (op : String) (j : Json) : Except String Json := do
   let kv (m : List (Str × Str)) : Json := Json.arr (m.map (fun x => Json.arr #[jstr x.1, jstr x.2])).toArray
   pure (Json.mkObj [("effects", Json.arr out.toArray), ("files", kv fin.files), ("hashes", kv fin.hashes), ("db", kv fin.db)])
 
+/-- `index.run`: a history of edits and reindex runs on the abstract store of `Model/Index.lean`; `proc` maps a text to
+the text after write-back (texts and pages are opaque strings, a page is identified with the text it was built from) -/
+def handleIndex (op : String) (j : Json) : Except String Json := do
+  match op with
+  | "index.run" =>
+    let single (k : String) : Except String (List (Str × Str)) := do
+      let ps ← pairsOf j k
+      pure (ps.map (fun kv => (kv.1, kv.2.headD [])))
+    let files ← single "files"
+    let hashes ← single "hashes"
+    let db ← single "db"
+    let proc ← single "proc"
+    let opsJ ← arrOf j "ops"
+    let ops ← opsJ.toList.mapM (fun o => do
+      let a ← o.getArr?
+      let tag ← (a[0]?.getD Json.null).getStr?
+      match tag with
+      | "write" => do
+        let p ← (a[1]?.getD Json.null).getStr?
+        let t ← (a[2]?.getD Json.null).getStr?
+        pure (Index.Op.write p.toList t.toList)
+      | "remove" => do
+        let p ← (a[1]?.getD Json.null).getStr?
+        pure (Index.Op.remove p.toList)
+      | "reindex" => pure Index.Op.reindex
+      | "reindexOnly" => do
+        let ps ← (a[1]?.getD Json.null).getArr?
+        let ps ← ps.toList.mapM (fun x => x.getStr?)
+        pure (Index.Op.reindexOnly (ps.map String.toList))
+      | _ => throw s!"unknown index op {tag}")
+    let sem : Index.Sem Str := ⟨fun _ t => match proc.lookup t with | some post => (post, post) | none => (t, t)⟩
+    let fin := Index.run sem { files := files, db := db, hashes := hashes } ops
+    -- maps are read with `get` (first binding wins): one entry per key
+    let norm (m : List (Str × Str)) : Json :=
+      let keys := (m.map (·.1)).eraseDups
+      Json.arr (keys.filterMap (fun k => (Index.get m k).map (fun v => Json.arr #[jstr k, jstr v]))).toArray
+    pure (Json.mkObj [("files", norm fin.files), ("hashes", norm fin.hashes), ("db", norm fin.db)])
+  | _ => throw s!"unknown op {op}"
+
 /-- `move.text`: the text `note move` hands to `add_note` -/
 def handleMove (op : String) (j : Json) : Except String Json := do
   match op with
@@ -475,6 +514,7 @@ def handle (line : String) : Json :=
         else if op.startsWith "action." then handleAction op j
         else if op.startsWith "crash." then handleCrash op j
         else if op.startsWith "move." then handleMove op j
+        else if op.startsWith "index." then handleIndex op j
         else .error s!"unknown op {op}"
       match r with
       | .ok v => v
